@@ -119,20 +119,22 @@ def main(argv=None):
         print('HARNESS-ERROR %s: unexpected exception in the harness' % pid)
         return 2
 
-    # classify
+    # classify (by tag signature: every violation carries tags, records are kept per signature)
     known_hits = {}
-    unknown = []
-    for v in rec.viols:
+    unknown_sigs = {}
+    for sig, n in sorted(rec.sigs.items()):
+        v = {'tags': json.loads(sig)}
         hit = None
         for f in findings:
             if matches(f, v):
                 hit = f
                 break
         if hit is not None:
-            known_hits.setdefault(hit['key'], [hit, 0])[1] += 1
+            known_hits.setdefault(hit['key'], [hit, 0])[1] += n
         else:
-            unknown.append(v)
-    overflow = rec.nviol - len(rec.viols)       # counted but not kept: treat as unknown
+            unknown_sigs[sig] = n
+    unknown = [v for v in rec.viols if jdump(v['tags']) in unknown_sigs]
+    n_unknown = sum(unknown_sigs.values())
     for key in sorted(known_hits):
         f, n = known_hits[key]
         print('KNOWN-FINDING: property=%s %s [%s; %d cases this run]' % (pid, f['what'], key, n))
@@ -148,12 +150,11 @@ def main(argv=None):
         paths.append(p)
         print('VIOLATION property=%s replay=%s' % (pid, p))
         print('  ' + v['msg'])
-    if unknown or (overflow > 0 and not known_hits):
+    if n_unknown:
         rc = 1
-    if overflow > 0 and known_hits and not unknown:
-        # more violations than records kept: cannot prove all are known
-        print('HARNESS-ERROR %s: %d violations not kept for classification' % (pid, overflow))
-        rc = 2
+        if not paths:
+            print('HARNESS-ERROR %s: %d unlisted violations but no record kept' % (pid, n_unknown))
+            rc = 2
 
     wall = timer()
     if not a.replay and not a.no_evidence:
@@ -169,14 +170,14 @@ def main(argv=None):
             'exhaustive': bool(rec.notes.get('exhaustive', True)),
             'counters': {k: v for k, v in sorted(rec.c.items())},
             'known_findings_hit': {k: known_hits[k][1] for k in sorted(known_hits)},
-            'violations_unlisted': len(unknown),
+            'violations_unlisted': n_unknown,
         }
         for k, v in rec.notes.items():
             if k not in cov:
                 cov[k] = v
         ev = {'property_id': pid, 'tier': a.tier, 'seed': seed, 'level': 'model_checking',
               'coverage': cov, 'assumptions': meta.get('assumptions', []),
-              'wall_s': round(wall, 3), 'violations': len(unknown)}
+              'wall_s': round(wall, 3), 'violations': n_unknown}
         os.makedirs(os.path.join(core.VERIF_DIR, 'evidence'), exist_ok=True)
         with open(os.path.join(core.VERIF_DIR, 'evidence', pid + '.json'), 'w') as fh:
             json.dump(ev, fh, indent=1, sort_keys=True)
@@ -184,7 +185,7 @@ def main(argv=None):
           'known=%d violations=%d wall=%.1fs' % (
               pid, a.tier, seed, rec.c.get('states', 0), rec.c.get('transitions', 0),
               rec.c.get('traces', 0), len(rec.outcomes), sum(n for _, n in known_hits.values()),
-              len(unknown), wall))
+              n_unknown, wall))
     return rc
 
 
